@@ -111,7 +111,7 @@ func mapTaxLines(lines []TaxableLine) []*taxLine {
 	for i, v := range lines {
 		tls[i] = &taxLine{
 			total: v.GetTotal(),
-			taxes: v.GetTaxes(),
+			taxes: CleanSet(v.GetTaxes()), // ignore null combos
 		}
 	}
 	return tls
